@@ -14,7 +14,7 @@ from checks import wf
 from checks.c08 import fcfg, edge_plans
 
 PROP = "C10"
-POLICIES = [("full", 0), ("fixed", 61), ("fixed", 4093), ("random", 0), ("allbutone", 0), ("halves", 0), ("straddle", 4096), ("straddle", 1000), ("fixed", 2499)]
+POLICIES = [("full", 0), ("fixed", 61), ("fixed", 4093), ("random", 0), ("allbutone", 0), ("halves", 0), ("straddle", 4096), ("straddle", 1000), ("fixed", 2499), ("fullthenshort", 0)]
 
 
 def model(run, thorough):
@@ -75,6 +75,11 @@ def run(tier):
                     else:
                         j["stream"] = ref["stream"]
                         pairs.append((ref["id"], j["id"]))
+                        if pol in ("random", "fixed") and size != 61:
+                            # the stream holds exactly the bytes the workflow needs and hands over the last of them with io.EOF
+                            j["stream"] = dict(ref["stream"], len=s * sb)
+                            j["reader"]["eofWithData"] = True
+                            j["tag"] += " exact length, EOF with the last bytes"
                     jobs.append(j)
                     meta[jid] = {"cnt": cnt, "hist": hist, "facts": {"policy": pol, "size": size, "w": w}}
         batches.append((ts, None, jobs, meta))
@@ -108,6 +113,20 @@ def run(tier):
         for pol, size in [("one", 0), ("fixed", 7 if nb <= 4096 else 997), ("random", 0), ("allbutone", 0), ("straddle", 16 if nb <= 4096 else 4096)]:
             jid += 1
             j = wf.mk_single(jid, nb, stream=st, policy=pol, size=size, rseed=jid, tag="single nb=%d %s" % (nb, pol))
+            sj.append(j)
+            refs[jid] = r0["id"]
+    # contents on which the pattern lengths disagree (every nibble value equally often, but only 16 of the 256 byte values):
+    # the verdict must follow the length of the request, not the size of the first chunk that happens to arrive
+    for nb in (1280, 1281, 2048, 4096, 39, 40, 41):
+        per = [0x11 * k for k in range(16)]
+        rng.shuffle(per)
+        st = {"kind": "periodic", "period": per, "len": -1}
+        jid += 1
+        r0 = wf.mk_single(jid, nb, stream=st, tag="single nb=%d nibble-uniform full" % nb)
+        sj.append(r0)
+        for pol, size in [("one", 0), ("fixed", 7), ("fixed", 1279), ("halves", 0), ("random", 0), ("fullthenshort", 0)]:
+            jid += 1
+            j = wf.mk_single(jid, nb, stream=st, policy=pol, size=size, rseed=jid, tag="single nb=%d nibble-uniform %s/%d" % (nb, pol, size))
             sj.append(j)
             refs[jid] = r0["id"]
     # streams whose period lines up with the read size (every Read delivers the same block again): still only the bytes count
